@@ -151,12 +151,12 @@ Lemma parse_not_cycle : k_parse <> k_cycle.
 Proof. intro H. vm_compute in H. discriminate. Qed.
 
 Lemma fs_get_cases : forall fs p,
-  (exists l, fs_get fs p = Ok l /\ In p (map fst fs)) \/ fs_get fs p = UErr k_parse [] 0
+  (exists l, fs_get fs p = Ok l /\ In p (map fst fs)) \/ (exists ln, fs_get fs p = UErr k_parse [] ln)
   \/ fs_get fs p = Crash c_nofile.
 Proof.
   induction fs as [|[k v] r IH]; intros; cbn [fs_get]; auto.
   destruct (eqs k p) eqn:E.
-  - apply inc_eqs_eq in E. subst. destruct v; auto. left. eexists. split; eauto. cbn. auto.
+  - apply inc_eqs_eq in E. subst. destruct v; eauto. left. eexists. split; eauto. cbn. auto.
   - destruct (IH p) as [[l [H1 H2]]|H]; auto. left. exists l. split; auto. cbn. auto.
 Qed.
 
@@ -332,7 +332,7 @@ Section Main.
     induction fuel; intros stack file ND IN LT.
     - exfalso. pose proof (NoDup_incl_length ND IN) as L. rewrite map_length in L. lia.
     - rewrite includes_unfold.
-      destruct (fs_get_cases fs (nrm cwd file)) as [[l [G I]]|[G|G]]; rewrite G; cbn [bind].
+      destruct (fs_get_cases fs (nrm cwd file)) as [[l [G I]]|[[pl G]|G]]; rewrite G; cbn [bind].
       + destruct (mems (nrm cwd file) stack) eqn:M. discriminate.
         intro H.
         destruct (proj2 (walks_err_src _ _) _ _ H) as [[k [ln [H1 H2]]]|[x [H1 H2]]].
@@ -395,7 +395,7 @@ Section Main.
   Proof.
     induction fuel; intros stack file tok ln H CH. discriminate.
     rewrite includes_unfold in H.
-    destruct (fs_get_cases fs (nrm cwd file)) as [[l [G I]]|[G|G]]; rewrite G in H; cbn [bind] in H.
+    destruct (fs_get_cases fs (nrm cwd file)) as [[l [G I]]|[[pl G]|G]]; rewrite G in H; cbn [bind] in H.
     - destruct (mems (nrm cwd file) stack) eqn:M.
       + inversion H; subst. split; auto.
         exists (stack ++ [nrm cwd file]), stack, (nrm cwd file).
@@ -669,9 +669,10 @@ Section Cwd.
     includes isc fs cwd1 fuel stack file = includes isc fs cwd2 fuel stack file.
   Proof.
     intros cwd1 cwd2. induction fuel; intros stack file A. reflexivity.
-    rewrite !includes_unfold. rewrite (nrm_abs cwd1), (nrm_abs cwd2); auto.
-    destruct (fs_get fs (normpath (normpath file))); cbn [bind]; auto.
-    destruct (mems (normpath (normpath file)) stack); auto.
+    rewrite !includes_unfold. rewrite (nrm_abs cwd1 file A), (nrm_abs cwd2 file A).
+    destruct (fs_get fs (normpath (normpath file))) as [objs|k t l|c]; cbn [bind];
+      [|reflexivity|reflexivity].
+    destruct (mems (normpath (normpath file)) stack); [reflexivity|].
     apply (proj2 (walks_ext _ _ _)). intros x _. apply IHfuel.
     apply isabs_resolve. apply isabs_dirname. apply isabs_normpath. apply isabs_normpath. auto.
   Qed.
@@ -685,3 +686,48 @@ Section Cwd.
     intros. rewrite nrm_abs. reflexivity. apply isabs_resolve. apply isabs_dirname. auto.
   Qed.
 End Cwd.
+
+(* ---------------------------------------------------------------- statements as used by Properties/C13.v *)
+Theorem includes_sound_spec : forall isc fs cwd fuel stack file t,
+  includes isc fs cwd fuel stack file = Ok t ->
+  Expands isc fs cwd true stack file t /\ Expands isc fs cwd false stack file t.
+Proof.
+  intros. apply includes_sound in H. split; auto. apply (proj1 (Expands_weaken isc fs cwd)); auto.
+Qed.
+
+Theorem includes_complete_entry : forall isc fs cwd file t,
+  Expands isc fs cwd true [] file t -> includes_file isc fs cwd file = Ok t.
+Proof. intros. apply includes_file_iff; auto. Qed.
+
+Theorem cycle_detected : forall isc fs cwd file,
+  cyclic_from fs cwd (nrm cwd file) ->
+  (forall t, includes_file isc fs cwd file <> Ok t) /\
+  ((forall n, reach fs cwd (nrm cwd file) n -> clean isc fs n) ->
+   exists tok, includes_file isc fs cwd file = UErr k_cycle tok 0
+               /\ genuine_cycle_report fs cwd [nrm cwd file] tok).
+Proof.
+  intros. split. intros t. apply cycle_never_ok; auto. apply cycle_reported; auto.
+Qed.
+
+Theorem cycle_report_genuine : forall isc fs cwd file tok ln,
+  includes_file isc fs cwd file = UErr k_cycle tok ln ->
+  ln = 0 /\ genuine_cycle_report fs cwd [nrm cwd file] tok.
+Proof. intros. eapply (cycle_genuine isc fs cwd _ [] file); eauto. cbn. auto. Qed.
+
+Theorem no_false_cycle_entry : forall isc fs cwd file tok ln,
+  acyclic_from fs cwd (nrm cwd file) -> includes_file isc fs cwd file <> UErr k_cycle tok ln.
+Proof. intros. apply no_false_cycle; auto. Qed.
+
+Theorem terminates_entry : forall isc fs cwd,
+  (forall file, includes_file isc fs cwd file <> Crash c_fuel) /\
+  (forall objs, includes_string isc fs cwd objs <> Crash c_fuel).
+Proof. intros. split. apply includes_file_terminates. apply includes_string_terminates. Qed.
+
+Theorem relative_to_includer : forall isc fs cwd1 cwd2,
+  (forall file, isabs file = true -> includes_file isc fs cwd1 file = includes_file isc fs cwd2 file) /\
+  (forall n x, isabs n = true ->
+     nrm cwd1 (resolve (Some (dirname n)) x)
+     = normpath (normpath (if isabs x then x else join (dirname n) x))).
+Proof.
+  intros. split. intros. apply includes_cwd_indep; auto. intros. apply resolve_next_to_includer; auto.
+Qed.
